@@ -140,6 +140,15 @@ Definition prop_block (accts : list N) (p : pstate) (b : block) (o : obs) : psta
                            | None => false end) newq)
         "prop:queued without its condition being met" ++
     tag (bal_agree accts expect (ob_bal o)) "prop:effects are not all-or-nothing" ++
+    (* within the prepaid gas: a send needs at least [gas_lo], so a trigger whose limit is below
+       gas_lo * (number of actions) cannot have run all of them inside its limit *)
+    tag (forallb (fun x : N * bool =>
+                    negb (snd x) ||
+                    match lookup (fst x) known', find (fun q => fst q =? fst x) (p_queue p) with
+                    | Some k, Some q => gas_lo * N.of_nat (List.length (k_actions k)) <=? snd q
+                    | _, _ => true
+                    end) (ob_exec o))
+        "prop:actions succeeded beyond the trigger's gas limit" ++
     tag (forallb (fun d => match lookup (snd d) known' with
                            | Some k => k_owner k =? fst d
                            | None => false end) destroys) "prop:destroyed by someone other than the owner" ++
